@@ -66,7 +66,8 @@ MATRIX = _matrix()
 def streams(ctx):
     return [("matrix", len(MATRIX)), ("random", ctx.scale(250, 6000)), ("zero_params", ctx.scale(12, 100)),
             ("probe", ctx.scale(60, 600)), ("longdoc", ctx.scale(120, 2500)), ("indented", ctx.scale(120, 2500)),
-            ("shapes", ctx.scale(200, 4000)), ("nodoc", ctx.scale(100, 2000))]
+            ("shapes", ctx.scale(200, 4000)), ("nodoc", ctx.scale(100, 2000)),
+            ("big", ctx.scale(40, 600))]
 
 
 def _strip_for_config(ir, et, edd_emit):
@@ -223,6 +224,10 @@ def gen_case(ctx, stream, idx):
         # descriptions with colons, brackets, quotes, '#', '%', braces
         return irgen.rand_ir(r, type_kinds=CORE_TKINDS + ("nested", "nested", "str", "literaldq"), nparams=r.randint(1, 6),
                              default_kinds=CORE_DKINDS + ("strodd", "strodd"), doc_kinds=("plain", "punct", "punct"))
+    if stream == "big":
+        # interfaces much larger than the usual handful of parameters
+        return irgen.rand_ir(r, type_kinds=CORE_TKINDS, default_kinds=CORE_DKINDS, nparams=r.randint(10, 24), max_params=24,
+                             doc_kinds=("plain", "plain", "punct", "long"))
     if stream == "nodoc":
         # parameters without description (no default either: a default is carried by the description's prose)
         ir = irgen.rand_ir(r, type_kinds=CORE_TKINDS, nparams=r.randint(1, 5), default_kinds=CORE_DKINDS,
